@@ -74,10 +74,11 @@ class Env:
         shutil.rmtree(self.dir, ignore_errors=True)
 
     def rows(self):
+        """in the order the table hands them out (what get_current_heads sees)"""
         con = sqlite3.connect(self.db)
         try:
             try:
-                return sorted(r[0] for r in con.execute("select version_num from alembic_version"))
+                return [r[0] for r in con.execute("select version_num from alembic_version")]
             except sqlite3.OperationalError:
                 return None  # no version table
         finally:
@@ -116,6 +117,10 @@ class Env:
                 lg.setLevel(logging.WARNING)
 
 
+def file_order(hist):
+    return sorted(hist, key=lambda r: "%s_.py" % r["id"])
+
+
 def e2e_targets(rng, hist):
     ids = [r["id"] for r in hist]
     labels = [l for r in hist for l in r.get("labels", [])]
@@ -132,6 +137,8 @@ def run(ctx, rng, n_graphs, cmds_per_graph):
     cases = []
     for _ in range(n_graphs):
         hist = gen_graph.gen_history(rng, rng.randint(2, 7), labels=rng.random() < 0.4, deps=rng.random() < 0.5)
+        # the real directory is read in sorted file-name order; give the model the same order
+        hist = file_order(hist)
         sd, info = rev_impl.load(hist)
         if sd is None:
             continue
@@ -143,7 +150,7 @@ def run(ctx, rng, n_graphs, cmds_per_graph):
                 bogus = False
                 if purge and rng.random() < 0.3:
                     # what --purge is for: a row that names no revision
-                    before = sorted(before + ["deadbeef"])
+                    before = before + ["deadbeef"]
                     env.set_rows(before)
                     bogus = True
                 targets = rng.choice(e2e_targets(rng, hist))
@@ -178,7 +185,7 @@ def judge(ctx, cases):
         if "err" in c["res"]:
             got = {"err": c["res"]["err"]}
         else:
-            got = {"rows": c["after"] if c["after"] is not None else []}
+            got = {"rows": sorted(c["after"]) if c["after"] is not None else []}
         if ("err" in got) != ("err" in want) or ("rows" in got and got["rows"] != want["rows"]):
             ctx.disagree("e2e.stamp", inp, got, want)
         else:
@@ -229,6 +236,9 @@ def judge(ctx, cases):
 
 def replay_case(ctx, inp):
     """re-run one recorded e2e case; returns the list of failures it produces"""
+    inp = dict(inp, revs=file_order(inp["revs"]))
+    _sd, info = rev_impl.load(inp["revs"])
+    inp["normOrder"] = info["normOrder"]
     env = Env(inp["revs"])
     try:
         env.set_rows(inp["rows"])
